@@ -12,6 +12,7 @@ import (
 	"net/http"
 	"net/http/httptest"
 	"strings"
+	"time"
 	"unsafe"
 
 	"github.com/google/inverting-proxy/agent/utils"
@@ -55,7 +56,9 @@ func scenarioB(name string, K, P int, sizes []int) vx.Scenario {
 	burst[name] = true
 	sc := scenarioC(name, K, P, sizes, 0, false)
 	sc.Single = true
-	sc.MaxSteps = 400000
+	sc.MaxSteps = 100000
+	// a client that is never answered keeps the pollers polling: two minutes of virtual time are enough
+	sc.MaxTime = 2 * time.Minute
 	return sc
 }
 
